@@ -182,7 +182,7 @@ struct ProgressEngine : Engine
 		bool done = ctx.explore([&](Chooser& ch) {
 			Case c; c.set("adv", (long long)u).set("n", AN).set("thorough", thorough ? 1 : 0).set_ints("choices", ch.prefix);
 			ctx.begin(c);
-			tcpadv::Exec e; e.cfg = cfg; e.ch = &ch; e.ctx = &ctx; e.N = AN; e.want_progress = true;
+			tcpadv::Exec e; e.cfg = cfg; e.ch = &ch; e.ctx = &ctx; e.N = AN; e.want_progress = true; e.no_drops = cfg.dir == tcpadv::D_BOTH; // the statement promises progress under loss only for one direction at a time
 			e.run();
 			c.set_ints("choices", ch.taken());
 			ctx.state(fmt("adv%llu|", (unsigned long long)u) + c.str("choices"));
@@ -221,7 +221,7 @@ struct ProgressEngine : Engine
 		if (c.has("adv")) {
 			tcpadv::Cfg const& cfg = acfgs.at(size_t(c.num("adv")));
 			std::fprintf(stdout, "%s\n", tcpadv::cfg_str(cfg).c_str());
-			Chooser ch; ch.reset(c.ints("choices")); tcpadv::Exec e; e.cfg = cfg; e.ch = &ch; e.ctx = nullptr; e.N = int(c.num("n", AN)); e.live = true; e.want_progress = true; e.run();
+			Chooser ch; ch.reset(c.ints("choices")); tcpadv::Exec e; e.cfg = cfg; e.ch = &ch; e.ctx = nullptr; e.N = int(c.num("n", AN)); e.live = true; e.want_progress = true; e.no_drops = cfg.dir == tcpadv::D_BOTH; e.run();
 			int nf = 0; for (auto& f : e.fails) if (f.find("] progress:") != std::string::npos || f.find("] livelock:") != std::string::npos) { ++nf; std::fprintf(stdout, "VIOLATION %s\n", f.c_str()); }
 			std::fprintf(stdout, nf ? "=> %d violation(s)\n" : "=> ok\n", nf);
 			return nf ? 1 : 0;
